@@ -22,7 +22,8 @@ def run_generic(pid, tier, seed, replay=None):
     res = Result(pid, tier, seed)
     plan = PLAN[pid]
     g = orch.gen_mod.main()
-    lean_ok, lean_log, dt = orch.lake_build(["SafeC.Props.%s" % pid, "safec_model"])
+    lean_ok, lean_log, dt = orch.lake_build(["SafeC.Props.%s" % pid, "safec_model"] +
+                                            sorted({o["module"] for o in orch.obligations(pid)} - {"SafeC.Props.%s" % pid}))
     res.extra["lean_build_s"] = round(dt, 1)
     drv_ok = lean_ok
     if not lean_ok:
